@@ -1,7 +1,6 @@
 """C17 - tree merges obey the three-way merge laws (OTHER==BASE, THIS==BASE,
 identical changes, disjoint changes) for merge3 / weave / lca, bzr and git."""
 
-import errno
 import os
 
 from hypothesis import strategies as st
@@ -287,6 +286,49 @@ def symlink_loop(model):
                if model[fid]["kind"] == "symlink")
 
 
+def symlink_to_dir_becomes_dir(m_this, m_other):
+    """THIS has a symlink that points at a directory of the tree and OTHER
+    turns that entry (same file id / same path) into a real directory."""
+    by_path = tm.paths(m_this)
+    po = tm.paths(m_other)
+    for fid in sorted(m_this):
+        e = m_this[fid]
+        if e["kind"] != "symlink":
+            continue
+        path = tm.path_of(m_this, fid)
+        same_path = po.get(path)
+        if not ((fid in m_other and m_other[fid]["kind"] == "directory") or
+                (same_path is not None and
+                 m_other[same_path]["kind"] == "directory")):
+            continue
+        cur = path.split("/")[:-1]
+        ok_ = True
+        for part in e["content"].split("/"):
+            if part == "..":
+                if not cur:
+                    ok_ = False
+                    break
+                cur.pop()
+            elif part and part != ".":
+                cur.append(part)
+        tgt = by_path.get("/".join(cur)) if ok_ else None
+        hops = 0
+        while tgt is not None and m_this[tgt]["kind"] == "symlink" and hops < 8:
+            # one more level is enough for labelling purposes
+            tp = tm.path_of(m_this, tgt).split("/")[:-1]
+            for part in m_this[tgt]["content"].split("/"):
+                if part == "..":
+                    if tp:
+                        tp.pop()
+                elif part and part != ".":
+                    tp.append(part)
+            tgt = by_path.get("/".join(tp))
+            hops += 1
+        if tgt is not None and m_this[tgt]["kind"] == "directory":
+            return True
+    return False
+
+
 def features(model, ops):
     f = set()
     seen_del = set()
@@ -373,8 +415,8 @@ def diff(a, b):
 # ------------------------------------------------------------------ run
 
 def run(case, env):
+    from breezy import errors as _errors
     from breezy import merge as _merge
-    from breezy import transform as _transform
     from breezy import workingtree as _wt
     from dromedary import errors as _dromedary_errors
     fam = case["family"]
@@ -439,11 +481,15 @@ def run(case, env):
                 raise AssertionError("generator: not id-disjoint")
             want = expect_snapshot(
                 replay(replay(m_base, case["dt"]), case["do"]), git)
-    # ---- separately labelled input classes behind open findings
+    # ---- separately labelled input classes behind open findings: a case
+    # of such a class reports "<class>-crashes-merge" / "<class>-merge-wrong"
+    # whatever the symptom, so the rest of the space stays searchable
     cls = None
-    loops = (symlink_loop(m_base) or symlink_loop(m_this) or
-             symlink_loop(m_other))
-    if git and leaf_dir_swap(m_base, m_other):
+    if git and case["criss"]:
+        cls = "git-criss-cross"
+    elif symlink_to_dir_becomes_dir(m_this, m_other):
+        cls = "symlink-to-directory-becomes-directory"
+    elif git and leaf_dir_swap(m_base, m_other):
         cls = "git-file-replaced-by-directory"
     elif git and fam == "disjoint" and cross_pairable(m_this, m_other):
         cls = "git-similar-files-paired-across-sides"
@@ -453,7 +499,8 @@ def run(case, env):
         cls = "git-renamed-file-path-reused"
     elif git and not dissimilar(case):
         cls = "git-similar-contents"
-    elif loops:
+    elif (symlink_loop(m_base) or symlink_loop(m_this) or
+          symlink_loop(m_other)):
         cls = "symlink-loop"
     tag = fam.replace("=", "-eq-")
 
@@ -486,21 +533,14 @@ def run(case, env):
                     merger.set_pending()
         wt = bz.open_tree(root)
         after, disk, confl = tree_state(wt, git)
-    except OSError as e:
-        # the transform follows symlinks (os.stat / os.listdir): a looping
-        # link makes the merge die with ELOOP; one class, one signature
-        if e.errno == errno.ELOOP and loops:
-            check(False, "C17/symlink-loop-crashes-merge",
-                  {"case": case, "error": str(e)})
-        raise
-    except (_transform.TransformRenameFailed, _transform.MalformedTransform,
-            _dromedary_errors.NoSuchFile) as e:
-        # git: a file of THIS replaced by a directory in OTHER (or the
-        # reverse) breaks the transform in several places; one class
-        if cls == "git-file-replaced-by-directory":
-            check(False, "C17/git-file-replaced-by-directory-crashes-merge",
-                  {"case": case, "error": "%s: %s" % (type(e).__name__, e)})
-        raise
+    except (OSError, KeyError, AttributeError, _errors.BzrError,
+            _dromedary_errors.PathError) as e:
+        # outside the labelled classes every exception keeps its own
+        # signature (runner: C17/exc:<Type>@<file>:<func>)
+        if cls is None:
+            raise
+        check(False, "C17/%s-crashes-merge" % cls,
+              {"case": case, "error": "%s: %s" % (type(e).__name__, e)})
     detail = {"case": case, "conflicts": confl,
               "cooked": [str(c) for c in cooked]}
     check(not confl and not cooked, sig("reports-conflicts"),
